@@ -54,7 +54,10 @@ ASSUMPTIONS = [
                "in the probe and is not generated"]
 TRUSTED = ["ThreadSanitizer; real-time scheduling of the sandbox (which interleavings occur)",
            "Linux inotify / epoll (which events are delivered for a file operation)",
-           "harness quiescence detector (/proc/self/task/<tid>/syscall + FIONREAD on the inotify fd)"]
+           "harness quiescence detector (/proc/self/task/<tid>/syscall + FIONREAD on the inotify fd)",
+           "family overflow: the harness writes fs.inotify.max_queued_events (16) for the instant in which the service under test "
+           "creates its inotify instance and restores the previous value (a value below 1024 found there is taken for a leftover "
+           "and replaced by the kernel default 16384); harness processes serialise on $VERIF_SCRATCH/inotify-sysctl.lock"]
 
 NAMES = ["a.json", "b.json", "c", "d.conf", "A", "z9", "_x", "~y", ".hid", ".tmp"]
 VALID_KINDS = ["det0", "act0", "act1", "multi", "multi00", "delay", "vempty", "comment"]
